@@ -36,6 +36,8 @@ pub fn local_chan(i: u8) -> String {
         1 => "channel-2".into(),
         2 => "channel-5".into(),
         3 => "channel-15".into(),
+        4 => "channel-31".into(),
+        5 => "channel-32".into(),
         _ => format!("channel-9{i}"),
     }
 }
@@ -45,6 +47,9 @@ pub fn remote_chan(i: u8) -> String {
         1 => "channel-72".into(),
         2 => "channel-15".into(),
         3 => "channel-5".into(),
+        // indices 4,5: PREFIX-RELATED counterparty ids (channel-7 is a string prefix of channel-70)
+        4 => "channel-7".into(),
+        5 => "channel-70".into(),
         _ => format!("channel-8{i}"),
     }
 }
@@ -53,7 +58,7 @@ pub fn partner(i: u8) -> u8 {
     i ^ 1
 }
 pub fn chan_index(id: &str) -> Option<u8> {
-    (0..4u8).find(|i| local_chan(*i) == id)
+    (0..6u8).find(|i| local_chan(*i) == id)
 }
 
 pub fn local_ep(i: u8) -> IbcEndpoint {
